@@ -14,6 +14,11 @@ structure H2 where
 def toFn (a : Array Nat) : Arr := fun j => a.getD j 0
 def ofFn (f : Arr) (n : Nat) : Array Nat := (Array.range n).map f
 
+/-- `dth_needs_program` after the operation according to the model (either logical heap stored into its root slot) -/
+def insW (h : H2) (t d : Nat) : Bool := insertW (toFn h.a0) h.n t || insertW (toFn h.a1) h.n d
+def remW (h : H2) (k0 k1 : Nat) : Bool := removeW (toFn h.a0) h.n k0 || removeW (toFn h.a1) h.n k1
+def updW (h : H2) (k0 k1 t d : Nat) : Bool := updateW (toFn h.a0) k0 t || updateW (toFn h.a1) k1 d
+
 def ins (h : H2) (t d : Nat) : H2 :=
   { n := h.n + 1, a0 := ofFn (insert (toFn h.a0) h.n t) (h.n + 1), a1 := ofFn (insert (toFn h.a1) h.n d) (h.n + 1) }
 
@@ -33,17 +38,26 @@ def main (path : String) : IO UInt32 := do
   let mut bad := 0
   let mut maxn := 0
   let mut slots := 0
+  let mut flags := 0
   for line in (← IO.FS.readFile path).splitOn "\n" do
     match line.splitOn " | " with
     | [op, res] =>
       let w := op.splitOn " "
+      let mut flag := false
       match w with
-      | ["INS", t, d] => h := ins h t.toNat! d.toNat!
-      | ["REM", e0, e1] => h := rem h (e0.toNat! / 2) (e1.toNat! / 2)
-      | ["UPD", e0, e1, t, d] => h := upd h (e0.toNat! / 2) (e1.toNat! / 2) t.toNat! d.toNat!
+      | ["INS", t, d] => flag := insW h t.toNat! d.toNat!; h := ins h t.toNat! d.toNat!
+      | ["REM", e0, e1] => flag := remW h (e0.toNat! / 2) (e1.toNat! / 2); h := rem h (e0.toNat! / 2) (e1.toNat! / 2)
+      | ["UPD", e0, e1, t, d] =>
+        flag := updW h (e0.toNat! / 2) (e1.toNat! / 2) t.toNat! d.toNat!
+        h := upd h (e0.toNat! / 2) (e1.toNat! / 2) t.toNat! d.toNat!
       | _ => pure ()
       ops := ops + 1
-      let expect := (res.splitOn " ").map String.toNat!
+      let all := (res.splitOn " ").map String.toNat!
+      let expect := all.drop 1
+      if flag then flags := flags + 1
+      if (all.headD 0 == 1) != flag then
+        bad := bad + 1
+        if bad ≤ 5 then IO.println s!"MISMATCH after op {ops} ({op}): dth_needs_program real {all.headD 0} model {flag}" 
       let got := (2 * h.n) :: physical h
       slots := slots + 2 * h.n
       if h.n > maxn then maxn := h.n
@@ -57,7 +71,7 @@ def main (path : String) : IO UInt32 := do
         bad := bad + 1
         if bad ≤ 5 then IO.println s!"NOT-A-HEAP after op {ops} ({op}): real {expect}"
     | _ => pure ()
-  IO.println s!"ops {ops} slots {slots} maxlive {maxn} mismatches {bad}"
+  IO.println s!"ops {ops} slots {slots} maxlive {maxn} reprogram-requests {flags} mismatches {bad}"
   return if bad = 0 then 0 else 1
 
 end HeapChk
